@@ -314,6 +314,8 @@ def enum_lib(tier):
 # ---------------------------------------------------------------------------
 # tools
 
+# comment lines before the problem line: any line that starts with the letter c
+HEADS = [[], [], ['c a comment\n'], ['c\n', 'c two\n'], ['c-----\n'], ['c--- first part ---\n', 'c\n'], ['cnf formula below\n'], ['c\tTabbed\n', 'c1 2 0\n']]
 LAYOUTS = ['clause-per-line', 'literal-per-line', 'wrapped-2', 'two-clauses-per-line', 'one-line', 'zero-on-next-line']
 
 
@@ -356,10 +358,10 @@ def run_tool(case):
         flags = case['flags']
         args = ['--seed', str(case['seed'])] + flags
         random.seed(case['rseed'])
-        G = cli.build('cnfshuffle', args, stdin_text=dimacs_text(F, case.get('layout')))
+        G = cli.build('cnfshuffle', args, stdin_text=''.join(case.get('head', [])) + dimacs_text(F, case.get('layout')))
         what = "cnfshuffle {} on {}".format(' '.join(args), F)
         random.seed(case['rseed'] + 1)
-        r = cli.run_main('cnfshuffle', args, stdin_text=dimacs_text(F, case.get('layout')))
+        r = cli.run_main('cnfshuffle', args, stdin_text=''.join(case.get('head', [])) + dimacs_text(F, case.get('layout')))
         if r.code != 0 or r.exc is not None:
             raise Violation("{}: fails: {}".format(what, r))
         from checks.c17 import parse_dimacs
@@ -383,6 +385,8 @@ def run_tool(case):
     consequences(Fc, n, G.number_of_variables(), out, what)
     w = getattr(G, '_verif_witness', None)
     labels = [kind, 'tool']
+    if kind == 'cnfshuffle' and any(len(h) > 1 and h[1] not in ' \t\n' for h in case.get('head', [])):
+        labels.append('comment-glued-to-the-c')
     if kind == 'cnfshuffle' and case.get('layout'):
         labels.append('layout:' + case['layout'])
         if case['layout'] in ('literal-per-line', 'wrapped-2') and any(len(c) >= 3 for c in Fc):
@@ -407,7 +411,7 @@ def strat_tool(draw):
     if draw(st.booleans()):
         return {'kind': 'cnfshuffle', 'F': draw(strat_formula(nmax=7, mmax=8)), 'seed': seed, 'rseed': draw(st.integers(0, 99)),
                 'flags': draw(st.lists(st.sampled_from(['-p', '-v', '-c', '-q']), unique=True)),
-                'layout': draw(st.sampled_from(LAYOUTS))}
+                'layout': draw(st.sampled_from(LAYOUTS)), 'head': draw(st.sampled_from(HEADS))}
     base = draw(st.sampled_from([['php', '3', '2'], ['op', '3'], ['tseitin', 'first', 'grid', '2', '2'], ['rphp', '2', '2', '1'],
                                  ['kcolor', '2', 'complete', '3'], ['and', '2', '2'], ['false'], ['true'], ['count', '4', '2'],
                                  ['php', '20', '10'], ['ram', '3', '3', '5']]))
@@ -463,7 +467,7 @@ def run_pipe(case):
 def enum_pipe(tier):
     forms = [{'n': 3, 'clauses': [[1, -2], [2, 3], [-1, -3, 2]]}, {'n': 4, 'clauses': [[1], [], [1, 2], [-4, 3, 2], [1, 2]]},
              {'n': 5, 'clauses': [[-5, 1], [2, -3, 4], [3], [-1, -2]]}, {'n': 1, 'clauses': []}]
-    heads = [[], ['c a comment\n'], ['c\n', 'c two\n'], []]
+    heads = [[], ['c a comment\n'], ['c\n', 'c two\n'], ['c-----\n', 'c1 2 0\n']]
     flagsets = [[], ['-q'], ['-p', '-v', '-c'], ['-v'], ['-c', '-q'], ['-p']]
     i = 0
     for F in forms:
@@ -485,8 +489,8 @@ SUBCHECKS = [
                               'cp:shuffle', 'cp:explicit', 'invalid-rejected', 'hook-witness', 'searched-witness', 'reference',
                               'descending-range', 'as:array', 'as:UserList']),
     SubCheck('tools', run_tool, strategy=strat_tool, quick=400, thorough=20000,
-             rule="cnfshuffle (DIMACS on stdin in six legal layouts: a clause per line, a literal per line, lines wrapped after two tokens, two clauses per line, everything on one line, the closing 0 at the start of the next line; every subset of -p -v -c -q, --seed) and 'cnfgen <family> -T shuffle' with every subset of the three --no-* switches; oracle: witness verified, switched-off components are the identity, printed text equals the formula built under the same seed, all three off => clauses unchanged",
-             required_labels=['cnfshuffle', 'cnfgen-T', 'all-off', 'hook-witness', 'clause-over-three-lines'] + ['layout:' + l for l in LAYOUTS]),
+             rule="cnfshuffle (DIMACS on stdin in six legal layouts: a clause per line, a literal per line, lines wrapped after two tokens, two clauses per line, everything on one line, the closing 0 at the start of the next line; 0..2 comment lines first, also ones whose text is glued to the letter c; every subset of -p -v -c -q, --seed) and 'cnfgen <family> -T shuffle' with every subset of the three --no-* switches; oracle: witness verified, switched-off components are the identity, printed text equals the formula built under the same seed, all three off => clauses unchanged",
+             required_labels=['cnfshuffle', 'cnfgen-T', 'all-off', 'hook-witness', 'clause-over-three-lines', 'comment-glued-to-the-c'] + ['layout:' + l for l in LAYOUTS]),
     SubCheck('pipe', run_pipe, enumerate_cases=enum_pipe,
              rule="the cnfshuffle tool as a real process with its input on a pipe: 4 formulas x {no comment before the problem line, one, two comment lines} x 6 switch sets (quick: every eighth), and -o into files named .cnf / .opb / .tex / .dimacs / .txt / .gml / without extension; oracle: exit status 0, DIMACS output, same counts and clause multiset shape, a signed renaming + clause permutation exists (searched), everything off = identity; non-trivial: >=3 variables and >=3 clauses",
              required_labels=['pipe', 'headerless', 'with-comments', 'to-file']),
